@@ -24,7 +24,8 @@ RULE = ("case kinds: dataflow (generated design x scheduler x inputs: exact-once
         "sets computed by an independent static analysis of the spec incl. nets, value-at-call == value-at-end), "
         "explicit (template with seeded U<U, RD(x)<U, WR(x)>U constraints and inversions: every edge of the "
         "independently computed order graph holds), novar (signal-free constraint cycles must raise in all "
-        "schedulers); non-trivial = >=1 ordered pair actually checked (or an error expected and seen); "
+        "schedulers), methods (CL component with non-blocking methods and direct M(a)<M(b), U(x)<M(a), M(a)<U(x) "
+        "constraints: every caller block of a before every caller block of b); non-trivial = >=1 ordered pair actually checked (or an error expected and seen); "
         "distinct = case digest")
 TIERS = {"quick": {"runs": 640, "budget_s": 100, "chunk": 4},
          "thorough": {"runs": 50000, "budget_s": 1800, "chunk": 8}}
@@ -144,11 +145,115 @@ def gen_novar(c):
   return {"n": n, "constraints": cons + extra}
 
 
+def gen_methods(c):
+  """CL component with k non-blocking methods and direct M(a)<M(b) / U(x)<M(a) / M(a)<U(x) constraints,
+  all consistent with one hidden total order (so the constraint graph is acyclic); caller blocks in the top."""
+  k = c.randint(2, 5)
+  nb = c.randint(2, 6)
+  calls = [c.randrange(k) for _ in range(nb)]              # caller block j calls method calls[j]
+  nodes = ["m%d" % i for i in range(k)] + ["b%d" % j for j in range(nb)] + ["x0", "x1"]
+  order = list(nodes)
+  c.shuffle(order)
+  pos = {n: i for i, n in enumerate(order)}
+  cons = []
+  for _ in range(c.randint(1, 6)):
+    kind = c.choice(["mm", "mm", "um", "mu"])
+    if kind == "mm":
+      a, b = c.sample(range(k), 2)
+      if pos["m%d" % a] > pos["m%d" % b]:
+        a, b = b, a
+      cons.append(["mm", a, b])
+    elif kind == "um":
+      x, m = c.choice(["x0", "x1"]), c.randrange(k)
+      cons.append(["um", x, m] if pos[x] < pos["m%d" % m] else ["mu", m, x])
+    else:
+      x, m = c.choice(["x0", "x1"]), c.randrange(k)
+      cons.append(["mu", m, x] if pos["m%d" % m] < pos[x] else ["um", x, m])
+  # a caller block sits "at" its method in the hidden order: drop constraints that the callers' own
+  # positions would contradict is unnecessary - callers have no constraints of their own
+  uniq = []
+  for x in cons:
+    if x not in uniq:
+      uniq.append(x)
+  return {"k": k, "calls": calls, "constraints": uniq}
+
+
+def methods_source(t, uid):
+  k = t["k"]
+  L = ["from pymtl3 import *", "", "class Callee_%s(Component):" % uid, "  def construct(s):", "    s.n = 0"]
+  mm = [x for x in t["constraints"] if x[0] == "mm"]
+  if mm:
+    L.append("    s.add_constraints(%s)" % ", ".join("M(s.m%d) < M(s.m%d)" % (a, b) for _, a, b in mm))
+  for i in range(k):
+    L += ["  @non_blocking(lambda s: True)", "  def m%d(s, v):" % i, "    s.n += v"]
+  L += ["", "class Top_%s(Component):" % uid, "  def construct(s):", "    s.c = Callee_%s()" % uid, "    s.z = 0"]
+  for j, m in enumerate(t["calls"]):
+    L += ["    @update_once", "    def b%d():" % j, "      s.c.m%d(%d)" % (m, j + 1)]
+  for x in ("x0", "x1"):
+    L += ["    @update_once", "    def %s():" % x, "      s.z += 1"]
+  other = [x for x in t["constraints"] if x[0] != "mm"]
+  if other:
+    L.append("    s.add_constraints(%s)" % ", ".join(
+      ("U(%s) < M(s.c.m%d)" % (x[1], x[2])) if x[0] == "um" else ("M(s.c.m%d) < U(%s)" % (x[1], x[2])) for x in other))
+  return "\n".join(L) + "\n"
+
+
+def run_methods(case, stats):
+  from ..sched import harness
+  t = case["tmpl"]
+  callers = {}
+  for j, m in enumerate(t["calls"]):
+    callers.setdefault(m, []).append("b%d" % j)
+  edges = []
+  for x in t["constraints"]:
+    if x[0] == "mm":
+      edges += [(a, b) for a in callers.get(x[1], []) for b in callers.get(x[2], [])]
+    elif x[0] == "um":
+      edges += [(x[1], b) for b in callers.get(x[2], [])]
+    else:
+      edges += [(a, x[2]) for a in callers.get(x[1], [])]
+  for sched, sseed in case["scheds"]:
+    seams.set_hash_stream(case["hash_seed"] ^ sseed)
+    try:
+      ns, cls, _ = emit.build({"uid": case["uid"], "top": "Top"}, src=methods_source(t, case["uid"]))
+      top = cls()
+      top.elaborate()
+      harness.prepare(top, sched, sseed)
+      top.sim_reset()
+    except Exception as e:
+      return [C.exc_violation(e, "build/%s" % sched)]
+    stats["fault_counts"]["sched." + sched] = stats["fault_counts"].get("sched." + sched, 0) + 1
+    for cyc in range(2):
+      with harness.BlockRecorder(top) as rec:
+        top.sim_tick()
+      names = [b.__name__ for b in rec.log]
+      stats["schedules"].append(_rng.digest(names))
+      want = ["b%d" % j for j in range(len(t["calls"]))] + ["x0", "x1"]
+      for n in want:
+        if names.count(n) != 1:
+          return [C.viol("exactly_once", {"sched": sched, "block": n, "count": names.count(n), "kind": "methods"})]
+      pos = {n: i for i, n in enumerate(names)}
+      for a, b in edges:
+        stats["pairs_checked"] += 1
+        if pos[a] > pos[b]:
+          return [C.viol("method_constraint_order", {"sched": sched, "sched_seed": sseed, "before": a, "after": b,
+                                                     "order": names, "constraints": t["constraints"],
+                                                     "calls": t["calls"]})]
+      stats["sim_cycles"] += 1
+  return []
+
+
 def gen_case(R, tier):
   c = R("case")
   s = R("sched")
   r = c.random()
   base = {"hash_seed": R.sub_seed("hash")}
+  if r < 0.10:
+    base.update(kind="methods", tmpl=gen_methods(c), uid="m%x" % (R.seed & 0xffffff),
+                scheds=[[x, s.getrandbits(32)] for x in s.sample(
+                  ("default", "default_s2", "mamba", "mamba_s2", "simple", "simple_s2", "heutopo", "forced",
+                   "adversarial"), 3)])
+    return base
   if r < 0.62:
     prof = c.choice(["acyclic", "shapes", "shapes", "big", "ff_heavy"])
     spec = designgen.DesignGen(c, prof, uid="d%x" % (R.seed & 0xffffff)).gen()
@@ -416,6 +521,8 @@ def run_case(case):
     v = run_dataflow(case, stats)
   elif kind == "explicit":
     v = run_explicit(case, stats)
+  elif kind == "methods":
+    v = run_methods(case, stats)
   else:
     v = run_novar(case, stats)
   stats["fault_counts"]["kind." + kind] = 1
@@ -430,6 +537,8 @@ def run_case(case):
 def sample(case):
   if case["kind"] == "dataflow":
     return {"kind": "dataflow", "scheds": case["scheds"], "source_head": emit.source(case["spec"])[:1200]}
+  if case["kind"] == "methods":
+    return {"kind": "methods", "scheds": case["scheds"], "source": methods_source(case["tmpl"], case["uid"])}
   return {"kind": case["kind"], "scheds": case["scheds"],
           "source": tmpl_source(case["kind"], case["tmpl"], case["uid"])}
 
